@@ -578,7 +578,7 @@ func (p *plainSource) PreviousX25519EncryptionKey() (string, []byte, error) {
 	if !p.hasPrev {
 		return "", nil, nil
 	}
-	return p.prevID, append([]byte(nil), p.prevKey...), nil
+	return p.prevID, append([]byte{}, p.prevKey...), nil
 }
 
 // TestProp_PairSets: the statement read over arbitrary key sources. A receiver
@@ -605,6 +605,11 @@ func TestProp_PairSets(t *testing.T) {
 		if rapid.Bool().Draw(t, "receiverHasPrevious") {
 			ps, pid = drawPair("receiver-previous")
 			recv.hasPrev, recv.prevID, recv.prevKey = true, pid, pool[ps]
+			if rapid.IntRange(0, 4).Draw(t, "previousSecretIsEmpty") == 0 {
+				// a key source that reports a previous key ID with an EMPTY (non-nil) secret:
+				// that is no usable pair, only the current pair can match
+				recv.prevKey, ps = []byte{}, -2
+			}
 		}
 		ss, sid := drawPair("sender")
 		sender := &plainSource{id: sid, key: pool[ss]}
